@@ -119,18 +119,24 @@ def itemSafe (st : St) (t : Tok) (unknownContinues : Bool) (id : Nat) : Bool :=
   | none => unknownContinues
   | some _ => sessionKnown st t && itemOk st id
 
-/-- decidable guard of the partial theorem: the request shapes for which no call site of the model
-    panics -/
-def safe (st : St) (t : Tok) : Req → Bool
-  | .findServers => !st.endpointsEmpty
+/-- the dispatcher answers before any handler body runs: no handler, a stub, or a handler whose
+    table row says "session looked up and nil-checked" meeting a token that is not in the table -/
+def preempted (st : St) (t : Tok) (r : Req) : Bool :=
+  match handlerOf r.name with
+  | none => true
+  | some h => h.unsupported || (h.lookup == "session" && h.nilChecked && (findSession st t).isNone)
+
+/-- the request shapes for which no call site inside the handler BODY panics -/
+def safeBody (st : St) (t : Tok) : Req → Bool
+  | .findServers => !(st.endpointsEmpty && !Gen.SrvSession.findServersChecksEndpoints)
   | .createSession _ sec cert => !(sec && cert == .nonRsa && !Gen.SrvSession.newSessionSignatureChecked)
   | .activateSession sec _ =>
     match findSession st t with
     | some s => !(sec && !s.certRsa && !Gen.SrvSession.verifySessionSignatureChecked)
     | none => true
-  | .browse cls refs => cls == .plain && !(refs && st.dataTypeAttr == .wrongType)
+  | .browse cls refs => cls == .plain && !(refs && st.dataTypeAttr == .wrongType && !Gen.SrvSession.dataTypeAssertionChecked)
   | .createSubscription iv =>
-    match iv with
+    match effectiveInterval iv with
     | .subMs => false
     | .small => sessionKnown st t
     | .huge => true
@@ -139,6 +145,12 @@ def safe (st : St) (t : Tok) : Req → Bool
   | .setMonitoringMode ids => ids.all fun id => itemSafe st t Gen.SrvSession.setModeUnknownContinues id
   | .deleteMonitoredItems ids => ids.all fun id => itemSafe st t Gen.SrvSession.delItemsUnknownContinues id
   | _ => true
+
+/-- decidable guard of the partial theorem: the requests that cannot make the server process exit -/
+def safe (st : St) (t : Tok) (r : Req) : Bool := preempted st t r || safeBody st t r
+
+/-- every subscription has an owning session -/
+def ownersSet (st : St) : Bool := st.subs.all fun s => s.owner.isSome
 
 /-- finding signature of a crashing request (decidable on the case) -/
 def sig29 (st : St) (t : Tok) : Req → String
